@@ -406,9 +406,10 @@ Section Clauses.
     cl_dest = negb (forallb H (opt_list (r_dest r) CDest) && (r_eaves r || negb (isSome (m_dest m)))).
   Proof.
     unfold cl_dest. rewrite forallb_opt. unfold H. cbn [holds]. unfold dest_is, is_primary_owner.
-    destruct (r_dest r) as [d|]; destruct (m_dest m) as [md|]; destruct (r_eaves r); cbn [negb andb orb isSome]; try reflexivity.
-    destruct a as [ac|]; [|now rewrite andb_true_r].
-    destruct (owner_of ns d) as [o2|]; [|reflexivity]. now rewrite andb_true_r.
+    destruct (r_dest r) as [d|]; destruct (m_dest m) as [md|]; destruct (r_eaves r); cbn [negb andb orb isSome];
+      rewrite ?andb_true_r, ?andb_false_r; try reflexivity.
+    destruct a as [ac|]; [|reflexivity].
+    destruct (owner_of ns d) as [o2|]; reflexivity.
   Qed.
 
   Lemma cl_path_spec : path_wf r ->
@@ -427,7 +428,8 @@ Theorem matches_spec ns r s a m b :
   spec_matches ns (abs_rule r) s a m = b.
 Proof.
   intros Hwf. rewrite rule_matches_chain.
-  rewrite cl_type_spec, cl_iface_spec, cl_member_spec, cl_sender_spec, cl_dest_spec, (cl_path_spec ns r s a m Hwf).
+  rewrite (cl_type_spec ns r s a m), (cl_iface_spec ns r s a m), (cl_member_spec ns r s a m), (cl_sender_spec ns r s a m),
+    (cl_dest_spec ns r s a m), (cl_path_spec ns r s a m Hwf).
   unfold spec_matches, abs_rule. cbn [sr_cons sr_eaves].
   rewrite !forallb_app.
   set (H := holds ns s a m).
